@@ -2,6 +2,7 @@ package props
 
 import (
 	"fmt"
+	"reflect"
 	"time"
 
 	"github.com/bluenviron/gomavlib/v3"
@@ -27,8 +28,12 @@ type hbSender struct {
 	l         *link
 	sys, comp byte
 	autopilot byte
-	gaps      []time.Duration
-	sentAt    []time.Duration
+	// the first firstOther heartbeats announce another autopilot (a vehicle that is only recognised
+	// as ArduPilot after a while); apSent counts the ArduPilot heartbeats sent
+	firstOther int
+	apSent     int
+	gaps       []time.Duration
+	sentAt     []time.Duration
 }
 
 var rdsStreams = []uint64{1, 2, 3, 6, 10, 11, 12}
@@ -95,6 +100,15 @@ func c16Body() func(h []dsim.Rec) {
 	if twins && neps < 2 {
 		e.addEndpoint(e.cfg.eps[0].kind)
 	}
+	// transports without deadlines do not care about IdleTimeout: any value must leave the
+	// 30-second stream-request bookkeeping alone
+	untimed := true
+	for _, ep := range e.cfg.eps {
+		untimed = untimed && (ep.kind == epCustom || ep.kind == epSerial)
+	}
+	if untimed {
+		cfg.idleTO = dsim.Pick(5*time.Hour, 0, 2*time.Second, 20*time.Second)
+	}
 	cons := &consumer{e: e}
 	e.cons = cons
 	var links []*link
@@ -117,6 +131,10 @@ func c16Body() func(h []dsim.Rec) {
 				count("cov:sender-with-the-nodes-system-id")
 			}
 			n := 1 + dsim.Choose(6)
+			if s.autopilot == 3 && dsim.Choose(4) == 0 {
+				s.firstOther = 1 + dsim.Choose(2)
+				count("cov:sender-becomes-ardupilot")
+			}
 			for i := 0; i < n; i++ {
 				s.gaps = append(s.gaps, dsim.Pick(time.Duration(dsim.Choose(2000))*time.Millisecond, time.Duration(dsim.Choose(40))*time.Second, 29*time.Second, 30*time.Second, 31*time.Second))
 			}
@@ -129,15 +147,22 @@ func c16Body() func(h []dsim.Rec) {
 		for _, s := range mine {
 			s := s
 			d.spawn("sender", func() {
-				for _, g := range s.gaps {
+				for i, g := range s.gaps {
 					dsim.Sleep(g)
 					if e.now() > duration-time.Second {
 						return
 					}
+					ap := s.autopilot
+					if i < s.firstOther {
+						ap = 12
+					}
 					e.mu.Lock()
 					s.sentAt = append(s.sentAt, e.now())
+					if ap == 3 {
+						s.apSent++
+					}
 					e.mu.Unlock()
-					if s.l.sendHeartbeatAs(s.sys, s.comp, s.autopilot) != nil {
+					if s.l.sendHeartbeatAs(s.sys, s.comp, ap) != nil {
 						return
 					}
 					dsim.EnsureReleased("sender")
@@ -423,8 +448,8 @@ func c16Body() func(h []dsim.Rec) {
 						count("cov:second-burst")
 					}
 				}
-				if len(rs)/7 > len(snd.sentAt) {
-					dsim.Failf("stream-request-rate-limit", "%s: %d bursts for a sender that sent %d heartbeats", l.name, len(rs)/7, len(snd.sentAt))
+				if len(rs)/7 > snd.apSent {
+					dsim.Failf("stream-request-rate-limit", "%s: %d bursts for a sender that sent %d ArduPilot heartbeats", l.name, len(rs)/7, snd.apSent)
 					return
 				}
 				// one event per burst
@@ -449,7 +474,12 @@ func c16Body() func(h []dsim.Rec) {
 					arrived := false
 					for _, o := range events {
 						if o.kind == evFrame && o.ch == chOf[l] && o.sys == s.sys && o.comp == s.comp && o.fr.GetMessage().GetID() == 0 {
-							arrived = true
+							// (an ArduPilot heartbeat: earlier ones of this sender may have announced another autopilot)
+							if v := reflect.ValueOf(o.fr.GetMessage()); v.Kind() == reflect.Ptr && v.Elem().Kind() == reflect.Struct {
+								if f := v.Elem().FieldByName("Autopilot"); f.IsValid() && f.CanUint() && f.Uint() == 3 {
+									arrived = true
+								}
+							}
 						}
 					}
 					if arrived && len(reqs[key{s.sys, s.comp}]) == 0 && !stalls {
